@@ -353,7 +353,8 @@ func (s *State) evalNode(node any) object.Object { //nolint:funlen,gocognit,gocy
 		if f.Type() == object.ERROR {
 			return f
 		}
-		args, oerr := s.evalExpressions(node.Arguments)
+		// (extensions get the references themselves: type() shows them)
+		args, oerr := s.evalExpressions(node.Arguments, f.Type() == object.EXTENSION)
 		if oerr != nil {
 			return *oerr
 		}
@@ -363,7 +364,7 @@ func (s *State) evalNode(node any) object.Object { //nolint:funlen,gocognit,gocy
 		name := node.Function.Value().Literal()
 		return s.applyFunction(name, f, args)
 	case *ast.ArrayLiteral:
-		elements, oerr := s.evalExpressions(node.Elements)
+		elements, oerr := s.evalExpressions(node.Elements, false)
 		if oerr != nil {
 			return *oerr
 		}
@@ -436,7 +437,7 @@ func (s *State) evalMapLiteral(node *ast.MapLiteral) object.Object {
 			log.Warnf("key %s is not hashable", key.Inspect())
 			return s.NewError("key " + key.Inspect() + " is not hashable")
 		}
-		key = object.CopyRegister(key) // its value now: evaluating the value may change it ({n: ++n}).
+		key = object.Value(key) // its value now: evaluating the value may change it ({n: ++n}, also through a reference).
 		value := s.Eval(valueNode)
 		if value.Type() == object.ERROR {
 			return value
@@ -944,7 +945,9 @@ func (s *State) extendFunctionEnv(
 	return env, newBody, nil
 }
 
-func (s *State) evalExpressions(exps []ast.Node) ([]object.Object, *object.Error) {
+// keepRefs: leave references to variables of outer scopes as they are (else they are read now: a later
+// element or argument may change the variable).
+func (s *State) evalExpressions(exps []ast.Node, keepRefs bool) ([]object.Object, *object.Error) {
 	result := object.MakeObjectSlice(len(exps)) // not that this one can ever be huge but, for consistency.
 	for _, e := range exps {
 		evaluated := s.evalInternal(e)
@@ -960,6 +963,9 @@ func (s *State) evalExpressions(exps []ast.Node) ([]object.Object, *object.Error
 				return nil, &oerr
 			}
 			evaluated = rv.Value
+		}
+		if !keepRefs {
+			evaluated = object.Value(evaluated)
 		}
 		result = append(result, object.CopyRegister(evaluated))
 	}
